@@ -31,5 +31,6 @@ META = {
 def plan(tier):
     R = 2 if tier == "quick" else 3
     return [Scenario("api-step", step, params={"R": R},
-                     cover=["restricted-mode", "refused", "step-0", "step-1", "step-2", "step-3"],
+                     cover=["restricted-mode", "refused", "step-0", "step-1", "step-2", "step-3", "during-print-1",
+                            "during-print-2", "during-print-3"],
                      nra_mode="oneshot", bounds={"regions": "0..%d" % R, "requests": "1 (inductive step)", "geometry": "unbounded reals"})]
